@@ -373,7 +373,7 @@ func runReaders(c *simrun.Ctx) *simrun.Violation {
 	info := infoOf(proto0)
 	var mt protoreflect.MessageType = info
 	md := info.Desc
-	cfg := simval.GenCfg{MaxDepth: 1 + t.Draw("maxdepth", 3), MaxFields: 1 + t.Draw("maxfields", 8), MaxMapEntries: 2 + t.Draw("maxentries", 6), MaxListLen: 1 + t.Draw("maxlist", 4), Unknown: t.Chance("unknowns", 1, 4), AnyTargets: anyTargets(), BigLists: true, InvalidUTF8: t.Chance("allow-invalid-utf8", 1, 6)}
+	cfg := simval.GenCfg{MaxDepth: 1 + t.Draw("maxdepth", 3), MaxFields: 1 + t.Draw("maxfields", 6), MaxMapEntries: 2 + t.Draw("maxentries", 4), MaxListLen: 1 + t.Draw("maxlist", 4), Unknown: t.Chance("unknowns", 1, 4), AnyTargets: anyTargets(), BigLists: true, InvalidUTF8: t.Chance("allow-invalid-utf8", 1, 6)}
 	av := simval.Gen(t, md, cfg)
 	canon := simval.Canon(av)
 	useStruct := t.Chance("build-struct", 1, 2)
@@ -460,11 +460,20 @@ func runReaders(c *simrun.Ctx) *simrun.Violation {
 	}
 	envSeq := *env // the sequential reference uses a Methods value of its own (fetched after the concurrent phase)
 	nTasks := 2 + t.Draw("ntasks", 5)
+	// a large value (a list of hundreds of elements, or just a lot of data):
+	// fewer tasks and operations keep a run within a second or two
+	big := len(canon) > 4000 || strings.Count(canon, "{},") > 100
+	if big && nTasks > 2 {
+		nTasks = 2
+	}
 	tasks := make([]*readerTask, nTasks)
 	ordBase := uint64(t.Draw("ordbase", 1<<30))
 	warmOpsAllowed := t.Chance("warm-ops", 1, 3)
 	for i := range tasks {
 		n := 1 + t.Draw("nops", 6)
+		if big && n > 2 {
+			n = 2
+		}
 		rt := &readerTask{}
 		for j := 0; j < n; j++ {
 			kind := t.Draw("op", numOps)
@@ -508,6 +517,7 @@ func runReaders(c *simrun.Ctx) *simrun.Violation {
 	c.Tracef("type=%s tasks=%d value=%s", md.FullName(), nTasks, clip(canon, 500))
 
 	snap0 := simval.TakeSnapshot(shared)
+	snapEvery := 1 + len(snap0.Entries)/2000
 	sched := simhook.NewSched()
 	sched.MaxSteps = 400 + t.Draw("maxsteps", 800)
 	for i := range tasks {
@@ -526,6 +536,9 @@ func runReaders(c *simrun.Ctx) *simrun.Violation {
 	sched.AfterStep = func(step, task, site int) bool {
 		if len(schedule) < 300 {
 			schedule = append(schedule, fmt.Sprintf("t%d@%s", task, simhook.SiteName(site)))
+		}
+		if snapEvery > 1 && step%snapEvery != 0 {
+			return true // large message: the struct is re-read every few steps only
 		}
 		s := simval.TakeSnapshot(shared)
 		if s.Hash != snap0.Hash {
